@@ -501,7 +501,7 @@ func (ps *PipeSim) healthyActions(allowIdle bool) []pipeAction {
 	ready := ps.srv.Ready()
 	for _, ss := range ready {
 		ss := ss
-		acts = append(acts, pipeAction{fmt.Sprintf("exec c%d", ss.Conn.ID), 10, func() { ps.srv.Step(ss) }})
+		acts = append(acts, pipeAction{fmt.Sprintf("exec %s", ss.LabelString()), 10, func() { ps.srv.Step(ss) }})
 	}
 	if ps.remaining() > 0 {
 		acts = append(acts, pipeAction{"feed", 8, func() { ps.feed(ps.chooseFeed()) }})
